@@ -627,6 +627,42 @@ enum Rep {
     TopDown(Vec<usize>, bool),
 }
 
+/// one call of another feature family on `p` (see run_rep)
+fn disturb_bdd<'a>(b: &'a AllBuilder<'a>, p: BddPtr<'a>, k: u64, n: usize, dreal: &WmcParams<RealSemiring>, deu: &WmcParams<rsdd::util::semirings::ExpectedUtility>) -> Result<(), String> {
+    let qv: Vec<VarLabel> = vec![VarLabel::new(0), VarLabel::new((n - 1) as u64)];
+    guarded(|| match k % 10 {
+        0 => {
+            let _ = p.marginal_map(&qv, n, dreal);
+        }
+        1 => {
+            let _ = p.bb(&qv[..1], n, dreal);
+        }
+        2 => {
+            let _ = p.meu(&qv[..1], n, deu);
+        }
+        3 => {
+            let _ = b.smooth(p, n);
+        }
+        4 => {
+            let _ = b.condition(p, VarLabel::new(k % n as u64), k % 2 == 0);
+        }
+        5 => {
+            let _ = p.count_nodes();
+        }
+        6 => {
+            let _ = p.cached_semantic_hash(b.order(), &rsdd::repr::create_semantic_hash_map::<{ rsdd::constants::primes::U64_LARGEST }>(n));
+        }
+        7 => {
+            let _ = rsdd::serialize::BDDSerializer::from_bdd(p);
+        }
+        8 => {
+            let _ = p.marginal_map(&qv[1..], n, dreal);
+            let _ = b.exists(p, VarLabel::new(0));
+        }
+        _ => {}
+    })
+}
+
 fn rep_json(r: &Rep) -> Value {
     match r {
         Rep::Bdd(o) => json!({"bdd_order": o}),
@@ -666,12 +702,26 @@ fn run_rep(rep: &Rep, n: usize, ctx: &Ctx, fstep: usize) -> Report {
                 let tw: Vec<(RealSemiring, RealSemiring)> = w.iter().map(|&(l, h)| (RealSemiring(l), RealSemiring(h))).collect();
                 arb.push((w, crate::props::wparams::build_params(&tw, k + 1)));
             }
+            // calls of OTHER feature families on the diagram right before it is counted, rotating with the
+            // function (an optimisation query, smoothing, conditioning, hashing, node counting, evaluation,
+            // serialisation): whatever they leave on the nodes or in the builder meets the counts
+            let dreal: WmcParams<RealSemiring> = crate::props::wparams::build_params(&(0..n).map(|v| (RealSemiring(0.125 + 0.0625 * v as f64), RealSemiring(0.875 - 0.0625 * v as f64))).collect::<Vec<_>>(), 3);
+            let deu: WmcParams<rsdd::util::semirings::ExpectedUtility> = crate::props::wparams::build_params(&(0..n).map(|v| (rsdd::util::semirings::ExpectedUtility(0.25, 0.0), rsdd::util::semirings::ExpectedUtility(0.75, 0.75 * (v as f64 + 1.0)))).collect::<Vec<_>>(), 5);
             let mut f = 0;
             while f < total {
                 let p = build_bdd(&b, f, n);
                 if bdd_tt(p, n) == f {
                     r.transitions += 2;
                     r.states += 1;
+                    if (f / fstep as u64) % 3 == 1 {
+                        crate::props::bddutil::interloper((f / fstep as u64) as usize / 3);
+                    }
+                    if !crate::core::disabled("crossfeature") {
+                        if let Err(e) = disturb_bdd(&b, p, f / fstep as u64, n, &dreal, &deu) {
+                            viol(&mut r, f, false, format!("a query of another feature family before the counts panicked: {}", e));
+                        }
+                        r.add_extra("diagrams_disturbed_before_counting", 1);
+                    }
                     if let Some(e) = check_all(p, f, n, &suites, &mut ev) {
                         viol(&mut r, f, false, e);
                     }
